@@ -235,19 +235,32 @@ Print Assumptions C15_limit_size.
 
 (* Referrers through the tag schema (registries without referrers API): an index larger
    than the limit is an error with nothing delivered; otherwise the callback gets, in one
-   non-empty page, exactly the referrers of the requested artifact type; a failing callback
-   is the listing's error *)
+   non-empty page, the referrers of the requested artifact type among the cleaned index
+   (empty entries skipped, a repeated descriptor only once), no referrer twice; a failing
+   callback is the listing's error *)
 Theorem C15_tag_schema :
   forall limit size items a cb_fail,
     let r := tag_schema limit true size items a cb_fail in
     ((eff_limit limit < size)%Z -> r = ([], ErrSize)) /\
     ((size <= eff_limit limit)%Z ->
        Forall (fun p => p <> []) (fst r) /\
-       concat (fst r) = filter_referrers items a /\
+       concat (fst r) = filter_referrers (clean_index items) a /\
+       NoDup (map fst (concat (fst r))) /\
        (snd r = Done \/ (snd r = ErrCallback /\ cb_fail 0%nat = true /\ fst r <> [])) /\
        (cb_fail 0%nat = false -> snd r = Done)).
 Proof. exact tag_schema_spec. Qed.
 Print Assumptions C15_tag_schema.
+
+(* the cleaned index: every non-empty name of the index exactly once, entries of the index
+   only; an index without repeated or empty entries is left as it is *)
+Theorem C15_tag_schema_clean_index :
+  forall items,
+    NoDup (map fst (clean_index items)) /\
+    (forall x, In x (clean_index items) -> In x items /\ fst x <> []) /\
+    (forall x, In x items -> fst x <> [] -> In (fst x) (map fst (clean_index items))) /\
+    (NoDup (map fst items) -> (forall x, In x items -> fst x <> []) -> clean_index items = items).
+Proof. exact clean_index_spec. Qed.
+Print Assumptions C15_tag_schema_clean_index.
 
 (* ---------- Repository.Referrers: capability detection around the two paths ---------- *)
 
